@@ -264,7 +264,7 @@ export const $S = {
     return o[m](...args);
   },
   tpl(quasis, exprs) {
-    if (!exprs.some(isSym)) { let s = quasis[0]; for (let i = 0; i < exprs.length; i++) s += String(exprs[i]) + quasis[i + 1]; return s; }
+    if (!exprs.some(isSym)) { let s = quasis[0]; for (let i = 0; i < exprs.length; i++) s += `${exprs[i]}` + quasis[i + 1]; return s; }   // `${x}` (not String(x)): throws for symbols like the original
     throw new Unmodelled('template literal with symbolic part');
   },
 };
@@ -748,7 +748,7 @@ $S.bin = function (op, a, b) {
     }
     case 'instanceof': return false;
     case 'in': if (isBox(b)) throw new TypeError("Cannot use 'in' operator to search in a primitive"); throw new Unmodelled('in with symbolic key');
-    case '+': if (typeof a === 'string' || typeof b === 'string' || a instanceof SymStrV || b instanceof SymStrV) return (isBox(a) ? placeholder(a) : String(a)) + (isBox(b) ? placeholder(b) : String(b));
+    case '+': if (typeof a === 'string' || typeof b === 'string' || a instanceof SymStrV || b instanceof SymStrV) return (isBox(a) ? placeholder(a) : a) + (isBox(b) ? placeholder(b) : b);
     // fallthrough
     default: throw new Unmodelled(`operator ${op} on a symbolic value`);
   }
@@ -824,7 +824,7 @@ $S.tpl = function (quasis, exprs) {
   if (!exprs.some(needsValueHook)) return base.tpl(quasis, exprs);
   exprs.forEach((e) => touched(e));
   let s = quasis[0];
-  for (let i = 0; i < exprs.length; i++) s += (isBox(exprs[i]) ? placeholder(exprs[i]) : String(exprs[i])) + quasis[i + 1];
+  for (let i = 0; i < exprs.length; i++) s += (isBox(exprs[i]) ? placeholder(exprs[i]) : `${exprs[i]}`) + quasis[i + 1];
   return s;
 };
 function includesModel(arr, x, strict) {
@@ -855,6 +855,7 @@ $S.mcall = function (o, m, args) {
     throw new Unmodelled(`method ${String(m)} on a symbolic primitive`);
   }
   const f = o === null || o === undefined ? undefined : o[m];
+  if (typeof f !== 'function') return o[m](...args);                              // the genuine TypeError of the code under test
   if (typeof f === 'function' && !isNative(f)) return f.apply(o, args);          // user code: symbolic values flow through
   // native callee with symbolic arguments
   if ((Array.isArray(o) && (m === 'push' || m === 'unshift' || m === 'concat')) || (o instanceof Map && m === 'set') || (o instanceof Set && m === 'add')) return f.apply(o, args);   // containers just store
